@@ -19,7 +19,8 @@ func init() {
 			"reader is tested and its non-nil edge reaches only non-nil error returns (named exception: Finalize); (failed-creation-cleans) from a successful Alloc every path to an error return frees the pages, " +
 			"and unlocks them first if Lock had succeeded (directly or through memcall.Clean, whose body calls both unconditionally); (wipe-before-release) pages that hold a caller's secret are wiped before Unlock/Free/Clean; " +
 			"(failed-access-neutral) the reader count is not incremented on the Protect-failed edge; (close-retryable-and-balanced) closed=true and InUseCounter.Dec only after all three primitives succeeded, Close has no " +
-			"early exit on `closing`, InUseCounter.Inc happens exactly once before each success return of creation and on no error path. Run-time fault pairs are not executed.",
+			"early exit on `closing`, InUseCounter.Inc happens exactly once before each success return of creation and on no error path; a failed release still wakes a waiting Close and a failed Close never re-admits readers (C11.close-waits-and-orders, " +
+			"C11.flags-monotonic); no error value is dereferenced on its nil edge (inverted error tests in cleanup paths). Run-time fault pairs are not executed.",
 		NotDecided:  []string{"pairs of faults at run time / after-effect faults", "memguard's own failure handling (LockedBuffer.Destroy panics on failure)", "what the kernel does with the pages"},
 		Assumptions: []string{"a failed Protect leaves the previous protection in place", "buffers that only ever held discarded random fill (createRandom failure paths) need no wipe: nobody was given that key"},
 		Tech:        "static analysis: must-release ownership of mapped/locked pages on SSA over all error exits, error-discipline, dominance ordering; both SecretFactory back ends",
